@@ -1146,11 +1146,14 @@ Lemma early_conflict_refuted :
   /\ driver_table (Design (FMod [] [FMod [(0, TPart (TSig 0 8) 1 2 2)] []; FMod [(1, TSlice (TSig 0 8) 4 8)] []]) []) = None.
 Proof. vm_compute. repeat split. Qed.
 
-(* a zero-width target makes a driver with no bits; as the sole driver it is widened to the whole signal *)
-Lemma zero_width_refuted :
+(* a zero-width target makes a driver with no bits; it is NOT widened to the whole signal (repo fix of
+   C06-zero-width-driver-vs-input-port), so the signal may also be an Input port; a one-bit sole driver is still widened
+   and then collides with the port on bit 0 *)
+Lemma zero_width_accepted :
   let d := Design (FMod [(0, TSlice (TSig 0 4) 1 1)] []) [(0, 4, PIn)] in
-  driver_table d = Some (ErrConnect 0 0) /\ conflictb d = false.
-Proof. vm_compute. split; reflexivity. Qed.
+  let d1 := Design (FMod [(0, TSlice (TSig 0 4) 1 2)] []) [(0, 4, PIn)] in
+  driver_table d = None /\ conflictb d = false /\ driver_table d1 = Some (ErrConnect 0 0) /\ conflictb d1 = true.
+Proof. vm_compute. repeat split. Qed.
 
 (* m.d.comb += a.eq(a[1] + 1), a 2 bits wide: the DFS enters the adder by output 0 and closes on its sibling
    output 1; reported at the frame of output 0 since the `cycle.start in extra_nets` fix *)
@@ -1632,32 +1635,40 @@ Variables s w : nat.
 (* success: conns only grows, by bits of s; every driver's bits got connected, and were free before *)
 Lemma esd_ok n : forall ds db conns conns', emit_sig_drivers s w n ds db conns = inl conns' ->
   (forall x, In x conns -> In x conns') /\
-  (forall x, In x conns' -> In x conns \/ (fst x = s /\ snd x < w /\ ds <> [])) /\
+  (forall x, In x conns' -> In x conns \/ (fst x = s /\ snd x < w /\ exists k rs b, In (k, rs) ds /\ cov b rs)) /\
   (forall key rs, In (key, rs) ds -> forall x, In x (mine s w rs) -> In x conns' /\ ~ In x conns) /\
   (forall k1 rs1 k2 rs2, In (k1, rs1) ds -> In (k2, rs2) ds -> k1 <> k2 ->
      forall x, In x (mine s w rs1) -> ~ In x (mine s w rs2)).
 Proof.
   induction ds as [|[key rs] rest IH]; intros db conns conns' H; simpl in H.
   - inversion H; subst. split; [auto|]. split; [auto|]. split; intros; contradiction.
-  - set (guard := Nat.eqb n 1 && forallb (fun b => negb (bmem (s, b) conns)) (seq 0 w)) in H.
+  - set (guard := Nat.eqb n 1 && existsb (fun r => 0 <? a_len r) rs
+                  && forallb (fun b => negb (bmem (s, b) conns)) (seq 0 w)) in H.
     assert (Step : exists bits db1 conns1, connect bits conns = inl conns1 /\
                    emit_sig_drivers s w n rest db1 conns1 = inl conns' /\
                    (forall x, In x bits -> fst x = s /\ snd x < w) /\
-                   (forall x, In x (mine s w rs) -> In x bits)).
+                   (forall x, In x (mine s w rs) -> In x bits) /\
+                   (forall x, In x bits -> exists b, cov b rs)).
     { destruct guard eqn:G.
       - fold (allbits s w) in H. destruct (connect (allbits s w) conns) as [c1|e] eqn:E; [|discriminate].
         exists (allbits s w), db, c1. split; [exact E|]. split; [exact H|]. split; [intros x Hx; now apply allbits_In|].
-        intros x Hx. apply mine_In in Hx. apply allbits_In. tauto.
+        split; [intros x Hx; apply mine_In in Hx; apply allbits_In; tauto|].
+        intros x _. subst guard. apply andb_true_iff in G as [G _]. apply andb_true_iff in G as [_ G].
+        apply existsb_exists in G as [r [Hr Hl]]. apply Nat.ltb_lt in Hl. exists (a_start r), r. split; [assumption|].
+        unfold covers. rewrite Nat.leb_refl. simpl. apply Nat.ltb_lt. lia.
       - destruct (mark_assigns s key rs db) as [db1|e] eqn:M; [|discriminate].
         fold (mine s w rs) in H. destruct (connect (mine s w rs) conns) as [c1|e] eqn:E; [|discriminate].
-        exists (mine s w rs), db1, c1. split; [exact E|]. split; [exact H|]. split; [intros x Hx; apply mine_In in Hx; tauto|auto]. }
-    destruct Step as (bits & db1 & conns1 & E1 & E2 & Hb & Hm).
+        exists (mine s w rs), db1, c1. split; [exact E|]. split; [exact H|]. split; [intros x Hx; apply mine_In in Hx; tauto|].
+        split; [auto|]. intros x Hx. apply mine_In in Hx. exists (snd x). tauto. }
+    destruct Step as (bits & db1 & conns1 & E1 & E2 & Hb & Hm & Hcv).
     destruct (IH _ _ _ E2) as (I1 & I2 & I3 & I4).
     pose proof (connect_ok_In _ _ _ E1) as C1. pose proof (connect_ok_disj _ _ _ E1) as C2.
     split; [|split; [|split]].
     + intros x Hx. apply I1, C1. now right.
-    + intros x Hx. apply I2 in Hx as [Hx|[H1 [H2 _]]]; [|right; repeat split; auto; discriminate].
-      apply C1 in Hx as [Hx|Hx]; [right|now left]. destruct (Hb x Hx). repeat split; auto; discriminate.
+    + intros x Hx. apply I2 in Hx as [Hx|[H1 [H2 (k0 & rs0 & b0 & H3 & H4)]]];
+        [|right; split; [assumption|]; split; [assumption|]; exists k0, rs0, b0; split; [now right|assumption]].
+      apply C1 in Hx as [Hx|Hx]; [right|now left]. destruct (Hb x Hx) as [H1 H2]. destruct (Hcv x Hx) as [b0 H3].
+      split; [assumption|]. split; [assumption|]. exists key, rs, b0. split; [now left|assumption].
     + intros k r0 [E|Hin] x Hx.
       * inversion E; subst. split; [apply I1, C1; left; now apply Hm|apply C2; now apply Hm].
       * destruct (I3 k r0 Hin x Hx) as [A B]. split; [assumption|]. intro Hc. apply B, C1. now right.
@@ -1687,9 +1698,10 @@ Proof.
   assert (Hkey : forall k rs0, In (k, rs0) prev -> k <> key).
   { intros k rs0 Hin E. subst k. rewrite map_app in ND. apply NoDup_remove_2 in ND.
     apply ND. apply in_or_app. left. apply in_map_iff. exists (key, rs0). auto. }
-  destruct (Nat.eqb n 1 && forallb (fun b => negb (bmem (s, b) conns)) (seq 0 w)) eqn:G.
+  destruct (Nat.eqb n 1 && existsb (fun r => 0 <? a_len r) rs
+            && forallb (fun b => negb (bmem (s, b) conns)) (seq 0 w)) eqn:G.
   - (* shortcut: sole driver, nothing after it, and the connect cannot fail *)
-    apply andb_true_iff in G as [G1 G2]. apply Nat.eqb_eq in G1. rewrite G1 in Hn. rewrite app_length in Hn. simpl in Hn.
+    apply andb_true_iff in G as [G1 G2]. apply andb_true_iff in G1 as [G1 _]. apply Nat.eqb_eq in G1. rewrite G1 in Hn. rewrite app_length in Hn. simpl in Hn.
     assert (rest = []) as -> by (destruct rest; [reflexivity|simpl in Hn; lia]).
     fold (allbits s w) in H. destruct (connect (allbits s w) conns) as [c1|e1] eqn:E; [simpl in H; discriminate|].
     exfalso. apply connect_err in E as [s' [b [_ [Hin [Hc|Hd]]]]].
@@ -1744,7 +1756,7 @@ Qed.
 
 Lemma ed_ok : forall tab conns conns', NoDup (map esig tab) -> emit_drivers tab conns = inl conns' ->
   (forall x, In x conns -> In x conns') /\
-  (forall x, In x conns' -> In x conns \/ exists w ds, In ((fst x, w), ds) tab /\ snd x < w /\ ds <> []) /\
+  (forall x, In x conns' -> In x conns \/ exists w ds k rs b, In ((fst x, w), ds) tab /\ snd x < w /\ In (k, rs) ds /\ cov b rs) /\
   (forall s w ds key rs, In ((s, w), ds) tab -> In (key, rs) ds ->
      forall x, In x (mine s w rs) -> In x conns' /\ ~ In x conns) /\
   (forall s w ds k1 rs1 k2 rs2, In ((s, w), ds) tab -> In (k1, rs1) ds -> In (k2, rs2) ds -> k1 <> k2 ->
@@ -1757,9 +1769,10 @@ Proof.
     destruct (esd_ok s w _ _ _ _ _ E) as (A1 & A2 & A3 & A4). destruct (IH _ _ N' H) as (B1 & B2 & B3 & B4).
     split; [|split; [|split]].
     + auto.
-    + intros x Hx. apply B2 in Hx as [Hx|[w0 [ds0 [H1 H2]]]].
-      * apply A2 in Hx as [Hx|[H1 [H2 H3]]]; [now left|right]. exists w, ds. destruct x; simpl in *; subst. auto.
-      * right. exists w0, ds0. split; [now right|assumption].
+    + intros x Hx. apply B2 in Hx as [Hx|(w0 & ds0 & k0 & rs0 & b0 & H1 & H2)].
+      * apply A2 in Hx as [Hx|[H1 [H2 (k0 & rs0 & b0 & H3 & H4)]]]; [now left|right]. exists w, ds, k0, rs0, b0.
+        destruct x; simpl in *; subst. auto.
+      * right. exists w0, ds0, k0, rs0, b0. split; [now right|assumption].
     + intros s0 w0 ds0 key rs [E0|Hin] Hk x Hx.
       * inversion E0; subst. destruct (A3 key rs Hk x Hx). auto.
       * destruct (B3 s0 w0 ds0 key rs Hin Hk x Hx) as [H1 H2]. split; [assumption|]. intro Hc. apply H2. auto.
@@ -1847,23 +1860,21 @@ Definition conflictT (tab : list sigdrv) (P : list (nat * nat * pdir)) (conns : 
   \/ (exists s wp w ds b k rs, In (s, wp, PIn) P /\ In ((s, w), ds) tab /\ In (k, rs) ds /\ b < w /\ b < wp /\ cov b rs).
 
 Theorem phase23_iff tab P conns : tab_ok tab -> NoDup (map psig P) ->
-  (forall s w ds k rs, In ((s, w), ds) tab -> In (k, rs) ds -> exists b, cov b rs) ->
   (forall s wp dir w ds, In (s, wp, dir) P -> In ((s, w), ds) tab -> wp = w) ->
   (phase23 tab P conns <> None <-> conflictT tab P conns).
 Proof.
-  intros [N T] NP Hne Hw. unfold phase23. split.
+  intros [N T] NP Hw. unfold phase23. split.
   - destruct (emit_drivers tab conns) as [c1|e] eqn:E.
     + destruct (emit_top_ports P c1) as [c2|e] eqn:E2; [congruence|]. intros _.
       destruct (etp_sound _ _ _ NP E2) as (s & wp & b & Hin & Hb & Hc).
-      destruct (ed_ok _ _ _ N E) as (_ & A2 & _ & _). apply A2 in Hc as [Hc|[w [ds [H1 [H2 H3]]]]].
+      destruct (ed_ok _ _ _ N E) as (_ & A2 & _ & _). apply A2 in Hc as [Hc|(w & ds & k & rs & b' & H1 & H2 & H3 & Hcv)].
       * right. right. left. exists s, wp, b. auto.
-      * simpl in *. destruct ds as [|[k rs] ds']; [congruence|].
-        destruct (Hne s w _ k rs H1 (or_introl eq_refl)) as [b' Hcv].
+      * simpl in *.
         assert (wp = w) by (eapply Hw; eassumption). subst wp.
         assert (b' < w).
-        { destruct Hcv as [r [Hr Hc]]. destruct (T s w _ H1) as [_ Hbd]. specialize (Hbd k rs r (or_introl eq_refl) Hr).
-          unfold covers in Hc. apply andb_true_iff in Hc as [_ Hc]. apply Nat.ltb_lt in Hc. lia. }
-        right. right. right. exists s, w, w, ((k, rs) :: ds'), b', k, rs. repeat split; auto. now left.
+        { destruct Hcv as [r [Hr Hc']]. destruct (T s w _ H1) as [_ Hbd]. specialize (Hbd k rs r H3 Hr).
+          unfold covers in Hc'. apply andb_true_iff in Hc' as [_ Hc']. apply Nat.ltb_lt in Hc'. lia. }
+        right. right. right. exists s, w, w, ds, b', k, rs. repeat split; auto.
     + intros _. destruct (ed_sound _ _ _ (conj N T) E) as (s & w & ds & b & Hin & Hb & [Hc|Hc]).
       * left. destruct Hc as (k1 & rs1 & k2 & rs2 & H). exists s, w, ds, b, k1, rs1, k2, rs2. tauto.
       * right. left. destruct Hc as (k & rs & H). exists s, w, ds, b, k, rs. tauto.
@@ -2076,8 +2087,6 @@ Variable P : list (nat * nat * pdir).
 Hypothesis Hrec : forall m dm r, In (EvAssign m dm r) E -> rec_ok W r.
 Hypothesis HP : NoDup (map psig P).
 Hypothesis HPw : forall s w dir, In (s, w, dir) P -> w = W s.
-Hypothesis Hnz : forall m dm r, In (EvAssign m dm r) E ->
-  exists r', In (EvAssign m dm r') E /\ a_sig r' = a_sig r /\ 0 < a_len r'.
 
 Let tab := tab_of E [].
 Lemma tabI : tab_inv W tab.
@@ -2108,25 +2117,13 @@ Proof.
   intros k rs r H1 H2. destruct (Hd k rs H1) as [_ Hr]. destruct (Hr r H2) as [Hs [Ha Hb]]. rewrite Ha, Hs, <- Hw in Hb. exact Hb.
 Qed.
 
-Lemma tab_nonempty s w ds k rs : In ((s, w), ds) tab -> In (k, rs) ds -> exists b, cov b rs.
-Proof.
-  intros H1 H2. destruct tabI as [N T]. destruct (T s w ds H1) as [Hw (Nk & _ & Hd)]. destruct (Hd k rs H2) as [Hne _].
-  destruct rs as [|r0 rs']; [congruence|].
-  destruct (proj1 (intab_E s k r0)) as [A B]; [exists w, ds, (r0 :: rs'); repeat split; auto; now left|].
-  destruct (Hnz _ _ _ A) as (r' & A' & B' & C').
-  destruct (proj2 (intab_E s k r') (conj A' (eq_trans B' B))) as (w2 & ds2 & rs2 & X & Y & Z).
-  destruct (tab_same_entry tab s w ds w2 ds2 N H1 X) as [-> ->].
-  rewrite (ds_same_key ds2 k (r0 :: rs') rs2 Nk H2 Y). exists (a_start r'), r'. split; [assumption|].
-  unfold covers. rewrite Nat.leb_refl. simpl. apply Nat.ltb_lt. lia.
-Qed.
-
 Theorem events_iff : run E P <> None <-> conflictE E P.
 Proof.
   unfold run. rewrite run_events_spec. fold tab.
   destruct (connect (outs E) []) as [c|e] eqn:Ec.
   - pose proof (proj1 (connect_spec _ _ _) Ec) as [Nd [_ Hc]].
     assert (Cin : forall x, In x c <-> In x (outs E)) by (intro x; rewrite Hc, app_nil_r, <- in_rev; tauto).
-    rewrite (phase23_iff tab P c tab_ok_tab HP tab_nonempty).
+    rewrite (phase23_iff tab P c tab_ok_tab HP).
     2:{ intros s wp dir w ds H1 H2. rewrite (HPw _ _ _ H1). destruct tabI as [_ T]. destruct (T s w ds H2) as [Hw _]. auto. }
     unfold conflictT, conflictE. split.
     + intros [C|[C|[C|C]]].
@@ -2311,26 +2308,23 @@ Proof.
   intros Hne Hi Hj N. apply Hne. apply (proj1 (NoDup_nth_error l) N); [apply nth_error_Some; congruence|congruence].
 Qed.
 
-(* what a design must satisfy: targets the API can build; one width per signal (table W), in targets and ports; every
-   driver the emitter creates has at least one bit (excludes the zero-width finding); every signal is a port at most
-   once *)
+(* what a design must satisfy: targets the API can build (zero-width ones included); one width per signal (table W), in
+   targets and ports; every signal is a port at most once *)
 Definition wf_design (W : nat -> nat) (d : design) : Prop :=
-  let E := fst (walk (d_top d) 0) in
   (forall m stmts dm t, In (m, stmts) (fst (mods (d_top d) 0)) -> In (dm, t) stmts -> wf_tgt_top t = true) /\
   (forall m stmts dm t s w, In (m, stmts) (fst (mods (d_top d) 0)) -> In (dm, t) stmts -> In (s, w) (tgt_sigs t) -> w = W s) /\
-  (forall m dm r, In (EvAssign m dm r) E -> exists r', In (EvAssign m dm r') E /\ a_sig r' = a_sig r /\ 0 < a_len r') /\
   NoDup (map psig (d_ports d)) /\
   (forall s w dir, In (s, w, dir) (d_ports d) -> w = W s).
 
 Theorem driver_check_iff W d : wf_design W d -> (driver_table d <> None <-> conflict d).
 Proof.
-  intros (Wt & Ws & Wn & Wp & Ww). rewrite driver_table_run.
+  intros (Wt & Ws & Wp & Ww). rewrite driver_table_run.
   destruct (walk_ok (d_top d) 0) as (_ & Ho & Hm).
   assert (Wr : forall m dm r, In (EvAssign m dm r) (fst (walk (d_top d) 0)) -> rec_ok W r).
   { intros m dm r Hr. apply Hm in Hr as (stmts & t & H1 & H2 & H3).
     destruct (emit_assign_bounds t (wf_top_wf t (Wt _ _ _ _ H1 H2)) 0 (tlen t) r (le_n _) H3) as [A B].
     split; [exact (Ws _ _ _ _ _ _ H1 H2 A)|exact B]. }
-  rewrite (events_iff W _ _ Wr Wp Ww Wn).
+  rewrite (events_iff W _ _ Wr Wp Ww).
   set (E := fst (walk (d_top d) 0)) in *.
   assert (Hlog : forall x m dm, has_source d x (SrcLogic m dm) <-> asg E (m, dm) (fst x) (snd x)).
   { intros x m dm. simpl. unfold asg. simpl. split.
@@ -2381,35 +2375,21 @@ Proof.
   intro Hin. apply negb_true_iff in H1. assert (existsb (Nat.eqb x) r = true); [|congruence].
   apply existsb_exists. exists x. split; [assumption|apply Nat.eqb_refl].
 Qed.
-Definition assign_evs (E : list ev) : list (nat * nat * arec) :=
-  flat_map (fun e => match e with EvAssign m dm r => [(m, dm, r)] | _ => [] end) E.
-Lemma assign_evs_In E m dm r : In (m, dm, r) (assign_evs E) <-> In (EvAssign m dm r) E.
-Proof.
-  unfold assign_evs. rewrite in_flat_map. split.
-  - intros [[m0 dm0 r0|bits] [H1 H2]]; simpl in H2; [destruct H2 as [H2|[]]; inversion H2; subst; assumption|destruct H2].
-  - intro H. exists (EvAssign m dm r). split; [assumption|now left].
-Qed.
 Definition wf_designb (W : nat -> nat) (d : design) : bool :=
-  let E := assign_evs (fst (walk (d_top d) 0)) in
   forallb (fun ms => forallb (fun st => wf_tgt_top (snd st)) (snd ms)) (fst (mods (d_top d) 0))
   && forallb (fun ms => forallb (fun st => forallb (fun sw => Nat.eqb (snd sw) (W (fst sw))) (tgt_sigs (snd st))) (snd ms))
              (fst (mods (d_top d) 0))
-  && forallb (fun a => existsb (fun a' => Nat.eqb (fst (fst a')) (fst (fst a)) && Nat.eqb (snd (fst a')) (snd (fst a))
-                                           && Nat.eqb (a_sig (snd a')) (a_sig (snd a)) && (0 <? a_len (snd a'))) E) E
   && nodupn (map psig (d_ports d))
   && forallb (fun p => Nat.eqb (snd (fst p)) (W (fst (fst p)))) (d_ports d).
 
 Lemma wf_designb_sound W d : wf_designb W d = true -> wf_design W d.
 Proof.
   unfold wf_designb, wf_design. intro H.
-  apply andb_true_iff in H as [H H5]. apply andb_true_iff in H as [H H4]. apply andb_true_iff in H as [H H3].
-  apply andb_true_iff in H as [H1 H2]. rewrite forallb_forall in H1, H2, H3, H5. repeat split.
+  apply andb_true_iff in H as [H H5]. apply andb_true_iff in H as [H H4].
+  apply andb_true_iff in H as [H1 H2]. rewrite forallb_forall in H1, H2, H5. repeat split.
   - intros m stmts dm t A B. specialize (H1 _ A). simpl in H1. rewrite forallb_forall in H1. exact (H1 _ B).
   - intros m stmts dm t s w A B C. specialize (H2 _ A). simpl in H2. rewrite forallb_forall in H2. specialize (H2 _ B).
     simpl in H2. rewrite forallb_forall in H2. specialize (H2 _ C). simpl in H2. now apply Nat.eqb_eq.
-  - intros m dm r A. apply assign_evs_In in A. specialize (H3 _ A). apply existsb_exists in H3 as [[[m' dm'] r'] [B C]]. simpl in C.
-    apply andb_true_iff in C as [C C4]. apply andb_true_iff in C as [C C3]. apply andb_true_iff in C as [C1 C2].
-    apply Nat.eqb_eq in C1, C2, C3. apply Nat.ltb_lt in C4. subst. exists r'. split; [now apply assign_evs_In|auto].
   - now apply nodupn_NoDup.
   - intros s w dir A. specialize (H5 _ A). simpl in H5. now apply Nat.eqb_eq.
 Qed.
